@@ -182,18 +182,18 @@ var (
 )
 
 type polInst struct {
-	isCond bool
-	s, tw  stackage.Stack // instance and a twin that never gets a closure
-	cd, ct stackage.Condition
-	kind   string
-	vpf    int // 0 none, 1 accepting, 2 rejecting
-	rpf    bool
-	eqf    int // 0 none, 1 -> nil, 2 -> errE
-	umf    bool
-	maf    bool
-	evl    bool
+	isCond       bool
+	s, tw        stackage.Stack // instance and a twin that never gets a closure
+	cd, ct       stackage.Condition
+	kind         string
+	vpf          int // 0 none, 1 accepting, 2 rejecting
+	rpf          bool
+	eqf          int // 0 none, 1 -> nil, 2 -> errE
+	umf          bool
+	maf          bool
+	evl          bool
 	basicRefused bool
-	extra  int // elements appended by the built-in Marshal
+	extra        int // elements appended by the built-in Marshal
 }
 
 type polOp struct {
